@@ -125,31 +125,39 @@ class CallMixin:
                 raise Unsupported(f"contract variant {base}#{want} named by the caller does not exist")
             return sp
         sp = self.specs.get(base)
-        if hasattr(sp, 'params'):
-            return sp
         if not hasattr(self, '_variants'):
             self._variants = {}
             for k, v in self.specs.items():
                 if '#' in k and hasattr(v, 'params'):
                     self._variants.setdefault(k.split('#')[0], []).append(v)
-        vs = self._variants.get(base, [])
+        vs = [v for v in self._variants.get(base, []) if not v.verify_only]
+        has_default = hasattr(sp, 'params')
+        if has_default and (not vs or args is None or st is None):
+            return sp
         if not vs:
             return None
         if args is None or st is None:
             return vs[0]
         a = fn.args
         pnames = [p.arg for p in a.posonlyargs + a.args]
-        for v in vs:
+        for v in ([sp] if has_default else []) + vs:
             ok = True
             for p, val in zip(pnames, args):
                 k = v.params.get(p)
                 if k is None or k is ANY or (isinstance(k, FUNC) and isinstance(val, VFunc)):
                     continue
-                if self.coerce(st, val, k) is None:
+                if p in v.elementwise and isinstance(val, (VListRef, VList)):
+                    val = st.lst(val).elem.fresh('fit')            # an array argument of a scalar parameter: judged by its element kind
+                    if isinstance(k, type(INT)) and not isinstance(val, VInt):
+                        ok = False
+                        break
+                if self.coerce(st, val, k) is None or (k is INT and isinstance(val, VReal)):
                     ok = False
                     break
             if ok:
                 return v
+        if has_default:
+            return sp
         raise Unsupported(f"no contract variant of {base} fits the arguments")
 
     def call_def(self, st, fn, module, ci, args, kwargs, node=None, closure=None):
@@ -157,6 +165,13 @@ class CallMixin:
         qn = self.qualname(fn, ci)
         top = self.top_spec
         if spec is not None and not spec.verify_only and not (top is not None and (qn in top.inline or spec.fid in top.inline)):
+            if spec.elementwise:
+                a = fn.args
+                pnames = [p.arg for p in a.posonlyargs + a.args]
+                hit = [i for i, (p, v) in enumerate(zip(pnames, args)) if p in spec.elementwise and isinstance(v, (VListRef, VList))]
+                if hit:
+                    yield from self.elementwise_call(st, spec, fn, args, kwargs, node, hit[0])
+                    return
             yield from self.contract_call(st, spec, fn, args, kwargs, node)
             return
         decos = ci.decorators.get(fn.name, []) if ci is not None else []
@@ -389,6 +404,29 @@ class CallMixin:
         if isinstance(res, VList):
             res = st.new_list(res)
         yield st, res
+
+    def elementwise_call(self, st, spec, fn, args, kwargs, node, pos):
+        """a function of a scalar called with a numpy array: ASSUMED to act element by element (broadcasting); the callee's contract is applied
+        to a generic element under a quantifier"""
+        self.assumptions.add('numpy array arithmetic is element-wise (a function verified for one coordinate is applied to an array)')
+        l = st.lst(args[pos])
+        k = z3.Int(fresh_name('ewk'))
+        sc = st.fork()
+        sc.assume(0 <= k, k < l.n)
+        n0 = len(sc.pc)
+        self.qvars.append(k)
+        try:
+            args2 = list(args)
+            args2[pos] = l.at(k)
+            outs = list(self.contract_call(sc, spec, fn, args2, kwargs, node))
+        finally:
+            self.qvars.pop()
+        y = outs[0][1]
+        facts = sc.pc[n0:]
+        r = self.fresh_list(y.kind, 'ew', n=l.n)
+        eqs = [z3.Select(ra, k) == c for ra, c in zip(r.arrs, y.cols())]
+        st.assume(z3.ForAll([k], z3.Implies(z3.And(0 <= k, k < l.n), z3.And(*(eqs + facts))), patterns=[z3.Select(r.arrs[0], k)]))
+        yield st, st.new_list(r)
 
     def skolemize(self, res: V, kind: Kind, base: str) -> V:
         """inside a quantified context a callee result depends on the bound variables"""
